@@ -14,7 +14,7 @@ import subprocess
 import sys
 import time
 
-from . import extract, verus, kani, witness, registry
+from . import extract, verus, kani, witness, registry, callsite
 
 VERIF = os.path.dirname(os.path.dirname(os.path.abspath(__file__)))
 REPO = os.environ.get('VF_REPO', '/repo')
@@ -207,6 +207,9 @@ def check_property(pid, tier, seed):
             futs.append(pool.submit(run_verus_unit, u, c, tier))
     for f in futs:
         results.append(f.result())
+    for (u, c) in units:
+        if c['backend'] == 'callsite':
+            results.append(callsite.run_unit(u, c, REPO))
     for (u, c) in kani_units:
         results.append(kani.run_unit(u, c, tier, REPO, VERIF, BUILD, log))
     if fut_replay:
@@ -230,8 +233,14 @@ def check_property(pid, tier, seed):
         if not (replay_info and replay_info['ok']):
             dyn_contracts.append(dict(id=c['id'], status='not-run'))
             continue
-        args = c['cmd_thorough'] if tier == 'thorough' and c.get('cmd_thorough') else c['cmd']
-        d, err = witness._run([replay_info['bin']] + args)
+        if c.get('kind') == 'cli-literals':
+            d, err = witness.cli_literals(REPO, BUILD, log)
+            if d is not None and d.get('broken'):
+                dyn_contracts.append(dict(id=c['id'], status='not-run', detail=d.get('detail')))
+                continue
+        else:
+            args = c['cmd_thorough'] if tier == 'thorough' and c.get('cmd_thorough') else c['cmd']
+            d, err = witness._run([replay_info['bin']] + args)
         if d is None:
             dyn_contracts.append(dict(id=c['id'], status='not-run', detail=str(err)))
         elif d.get('found'):
@@ -292,7 +301,7 @@ def check_property(pid, tier, seed):
         if name in top_failed:
             continue
         w = dict(found=True, input=c['input'], clause=c.get('clause'), detail=c.get('detail'),
-                 replay_cmd=[c['replay'], c['input']] if c.get('replay') else None)
+                 replay_cmd=([c['replay'], c['input']] if c.get('replay') else None))
         rp = write_replay(pid, name, dict(kind='dynamic-contract', fn=c['id'], message=c['text'], site_text='', clause_text=''),
                           dict(unit='dynamic:' + c['id'], verifier_output=[]), w)
         k = match_known(known, pid, name, w)
@@ -406,6 +415,22 @@ def replay_file(pid, path):
         print(f'replay file names obligation {d.get("obligation")}; no concrete input recorded ({d.get("note")})')
         print('\n'.join(d.get('verifier_output', [])[:5]))
         return 1
+    if w['replay_cmd'][0] == '@cli-literals':
+        dd, err = witness.cli_literals(REPO, BUILD, log, only=w['replay_cmd'][1])
+        print(json.dumps(dd))
+        if dd and dd.get('found'):
+            print(f'VIOLATION property={pid} replay={path} obligation={d.get("obligation")}')
+            return 1
+        return 0
+    if w['replay_cmd'][0] == '@cli':
+        binp = witness.build_cli(REPO, BUILD, log)
+        if not binp:
+            return 2
+        fails, detail = witness.cli_check_one(binp, BUILD, w['replay_cmd'][1], w['replay_cmd'][2])
+        print(json.dumps(dict(fails=fails, input=w['replay_cmd'][2], detail=detail)))
+        if fails:
+            print(f'VIOLATION property={pid} replay={path} obligation={d.get("obligation")}')
+        return 1 if fails else 0
     info = build_replay()
     if not info['ok']:
         print(info['out'])
